@@ -416,7 +416,14 @@ def call_gcp(x, g, lb, ub, mats):
         ubb[:] = ub
     else:
         lbb, ubb = lb.copy(), ub.copy()
-    return get_cauchy_point(x.copy(), g.copy(), lbb, ubb, mats, it, iprint, None if lg is None else _LOGCFG[lg].logger)
+    xa, ga = x.copy(), g.copy()
+    if _LOGCFG["n"] % 4 == 1:
+        # inputs the caller has frozen (flags.writeable = False): the routine works on its own arrays
+        lbb, ubb = lbb.copy(), ubb.copy()
+        for a in (xa, ga, lbb, ubb):
+            a.setflags(write=False)
+        _LOGCFG["counts"]["readonly"] = _LOGCFG["counts"].get("readonly", 0) + 1
+    return get_cauchy_point(xa, ga, lbb, ubb, mats, it, iprint, None if lg is None else _LOGCFG[lg].logger)
 
 
 def is_nontrivial(x, g, lb, ub, ref):
